@@ -60,6 +60,8 @@ def rx(e, mode="min", top=True):
     left associativity; 'full': every nested binary operand wrapped (isolates the parser)."""
     k = e[0]
     if k == "lit":
+        if len(e) > 3:
+            return e[3]          # explicit spelling (hex, octal, exponent, suffix ...)
         if e[1] == "float":
             assert e[2] >= 0, "negative float literals are not spellable"
             return fmt_float(e[2])
